@@ -237,6 +237,7 @@ let capi_tok (t : string) : string =
   | "dirty" -> rc (call CVideoDirty)
   | "vram" -> (let r = call CVideoRam in
                match r.cout_ with CoBytes l -> "f" ^ digest_list l | _ -> "null")
+  | "snap" -> (match !gstate with GLive m -> duart_str m.mbus.duart_ | GPoisoned -> "poisoned")
   | "nvset" -> rc (call (CSetNvram (lcg_bytes (a 1) 8192)))
   | "nvget" -> (let r = call CGetNvram in
                 match r.cout_ with
